@@ -96,3 +96,50 @@ func VerifC05_P_pool_failure_delivery() {
 	}
 	sym.Reach("C05.P.pool")
 }
+
+// P-cancel: the build is interrupted (context cancelled, pool shut down by its watcher) while
+// tasks are running and further ones are queued or still being submitted. A caller may be left
+// waiting or get an error, but a caller that gets a nil error has received the result of its own
+// task, which really ran: work that never ran is never reported as done.
+func VerifC03_P_pool_interrupted() {
+	maxWorkers := 1 + sym.Choice("max_workers_minus_1", 2)
+	nTasks := 4
+	ctx, cancel := context.WithCancel(context.Background())
+	defer cancel()
+	pool := NewTaskWorkerPool[int](console.GetLogger(ctx), maxWorkers, func(tea.Msg) {}, nTasks)
+	pool.StartWorkers(ctx)
+	gate := make(chan struct{}) // the commands are slow: they finish only after the interrupt
+	ran := make([]int, nTasks)
+	returned := make([]bool, nTasks)
+	results := make([]int, nTasks)
+	errs := make([]error, nTasks)
+	for i := 0; i < nTasks; i++ {
+		i := i
+		go func() {
+			results[i], errs[i] = pool.Run(func(update StatusFunc) (int, error) {
+				<-gate
+				ran[i]++
+				return 100 + i, nil
+			})
+			returned[i] = true
+		}()
+	}
+	sym.Quiesce() // workers hold the first tasks, the next ones sit in the queue or in enqueue
+	cancel()      // the interrupt
+	sym.Quiesce() // the watcher shuts the pool down
+	close(gate)
+	sym.Quiesce()
+	for i := 0; i < nTasks; i++ {
+		if !returned[i] {
+			sym.Reach("C03.P.pool-interrupted.a-caller-is-left-waiting")
+		}
+		if returned[i] && errs[i] != nil {
+			sym.Reach("C03.P.pool-interrupted.a-caller-got-an-error")
+		}
+		if returned[i] && errs[i] == nil {
+			sym.Assert(ran[i] == 1 && results[i] == 100+i, "C03.P-cancel.success-only-for-work-that-ran")
+		}
+		sym.Assert(ran[i] <= 1, "C03.P-once.every-task-runs-at-most-once")
+	}
+	sym.Reach("C03.P.pool-interrupted")
+}
